@@ -29,7 +29,7 @@ package cte
 //@ func (*Writer).ExpandBuffer
 //@   requires 0 <= size && size <= 0x1000000000
 //@   modifies _this.Buffer, alloc
-//@   ensures len(_this.Buffer) >= size
+//@   ensures len(_this.Buffer) >= size && len(_this.Buffer) >= old(len(_this.Buffer))
 
 // The adapter used when the destination is not an io.StringWriter: it cannot return an error, so
 // a failing destination must surface as a panic, never as a silent success.
@@ -42,7 +42,8 @@ package cte
 //@ func (*Writer).WriteStringNotLF
 //@   requires _this.stringWriter != nil && !wfailed
 //@   modifies out, outLen, wfailed, _this.Column, _this.Buffer, memall(uint8), alloc
-//@   ensures !wfailed
+//@   ensures !wfailed && outLen == old(outLen) + uint64(len(str))
+//@   ensures forall i uint64 :: i < uint64(len(str)) ==> out[old(outLen)+i] == str[i]
 //@   xensures wfailed
 
 //@ func (*Writer).WriteStringPossibleLF
